@@ -113,6 +113,36 @@ macro_rules! range_harnesses {
                 must_reach!(!$pred(a, K + 1), "last step lands on MAX");
             }
 
+            /// The step that would move `start` past MAX: in the profile Kani models (overflow checks
+            /// and debug assertions on) std's `RangeFrom::next` panics there, and so must konst's
+            /// (`debug_assert!(!overflowed)`): it must neither saturate nor return quietly.
+            fn from_overflow() {
+                let d: u8 = kani::any();
+                kani::assume(d <= 2);
+                let a: T = kani::any();
+                // a == MAX - d
+                kani::assume($pred(a, d as usize) && !$pred(a, d as usize + 1));
+                let mut k = konst::iter::into_iter!(a..);
+                let mut s = a..;
+                let mut i = 0;
+                while i < d {
+                    match (k.copy().next(), s.next()) {
+                        (Some((x, rest)), Some(y)) => {
+                            assert!(x == y);
+                            k = rest;
+                        }
+                        _ => assert!(false),
+                    }
+                    i += 1;
+                }
+                let _r = k.next();
+                must_not_reach!("RangeFromIter::next with start == MAX returned instead of overflowing like std");
+            }
+
+            tiers! { #[kani::should_panic] from_overflow: unwind(5, 5), from_overflow(), from_overflow(),
+                calls("konst::iter::into_iter!(RangeFrom)", "RangeFromIter::next"),
+                bounds("start in MAX-2..=MAX, stepped up to MAX, then one more step", "same"),
+                panics_in("overflowed", "RangeFromIter", "next") }
             tiers! { excl: unwind(5, 8), excl::<3>(), excl::<6>(),
                 calls("konst::iter::into_iter!(Range)", "RangeIter::next", "RangeIter::next_back", "RangeIter::copy"),
                 bounds("every (start,end) pair of the type; 3 symbolic front/back steps", "every pair; 6 steps") }
